@@ -53,11 +53,13 @@ pub fn lex(text: &str) -> Vec<String> {
     out
 }
 
-pub const VOCAB: [&str; 60] = [
+pub const VOCAB: [&str; 70] = [
     "%start", "%title", "%comment", "%grammar_type", "%line_comment", "%block_comment", "%auto_newline_off", "%auto_ws_off",
     "%skip", "%on", "%enter", "%push", "%pop", "%allow_unmatched", "%user_type", "%nt_type", "%t_type", "%scanner", "%%", "::",
     ":", ";", "|", "<", ">", "(", ")", "[", "]", "{", "}", ",", "@", "^", "=", "?=", "?!", "S", "A", "B", "INITIAL", "M1", "T0",
     "\"a\"", "'b'", "/c/", "'ll(k)'", "'lalr(1)'", "\"//\"", "'/*'", "'*/'", "\"x\\\"y\"", "// c\n", "/* c */", "x_1", "Self", "crate", "my", "\"[a-z]+\"", "'%'",
+    // identifiers and separators outside ASCII (word characters of other scripts, digits, marks)
+    "Gr\u{f6}\u{df}e", "x\u{e9}", "a\u{661}", "_\u{4e16}", "\u{e9}", "n\u{2167}", "a\u{301}b", "\u{a0}", "A\u{130}", "\u{2028}",
 ];
 
 pub fn join(tokens: &[String]) -> String {
@@ -105,6 +107,19 @@ pub fn mutate_tokens(tokens: &[String], rng: &mut Rng) -> Vec<String> {
         }
     }
     v
+}
+
+/// character-level mutation: one non-ASCII character (letter, digit, mark, space, joiner of another
+/// script) inserted at a random character position, preferably next to an identifier character
+pub fn mutate_unicode(text: &str, rng: &mut Rng) -> String {
+    let cs: Vec<char> = text.chars().collect();
+    let ins = *rng.pick(&['\u{e9}', '\u{f6}', '\u{661}', '\u{301}', '\u{4e16}', '\u{a0}', '\u{2028}', '\u{df}', '\u{130}', '\u{1c5}', '\u{200d}', '\u{2167}', '\u{1f600}']);
+    let cands: Vec<usize> = (0..=cs.len()).filter(|i| (*i > 0 && (cs[*i - 1].is_ascii_alphanumeric() || cs[*i - 1] == '_')) || (*i < cs.len() && cs[*i].is_ascii_alphabetic())).collect();
+    let pos = if !cands.is_empty() && rng.chance(4, 5) { *rng.pick(&cands[..]) } else { rng.below(cs.len() + 1) };
+    let mut out: String = cs[..pos].iter().collect();
+    out.push(ins);
+    out.extend(cs[pos..].iter());
+    out
 }
 
 pub fn soup(rng: &mut Rng, max: usize) -> String {
